@@ -1,5 +1,61 @@
-import SdbModel.Model.Conc
+import SdbModel.Lemmas.Serial
+import SdbModel.Model.Table
 import SdbModel.Generated.Protocol
-/-! # C02 — theorems under construction (see DESIGN.md section 4) -/
+
+/-!
+# C02 — Commit is atomic across tables; Abort leaves no trace
+
+> All writes of one write transaction, over every table it targets, become
+> visible to other transactions at a single instant during Commit: any snapshot
+> contains either all of them or none, and the snapshot returned by Commit
+> contains them.  Before Commit and after Abort none of them is visible to any
+> other transaction, and an aborted transaction leaves nothing behind (…).
+-/
 namespace Sdb
+open Serial
+
+/-- a reader's snapshot is the root: one atomic load (fact read off DB.ReadTxn) -/
+theorem C02_reader_is_single_load : Gen.protocol.readIsSingleLoad = true := by decide
+
+/-- **single instant**: the committed state changes only in the one `store`
+    step of a transaction, and that step brings ALL of its tables to their new
+    value at once — every other step (lock acquisition, root load, private
+    writes, abort, releases, other threads starting) leaves every snapshot
+    unchanged -/
+theorem C02_visibility_single_instant (s s' : State) (h : Step s s') :
+    s'.root = s.root ∨
+    (∃ (i : Nat) (t : Txn), s.txns[i]? = some t ∧ t.phase = .loaded ∧ t.commit = true ∧
+      ∀ x, s'.root x = if x ∈ t.tabs then t.old x + 1 else s.root x) := by
+  cases h with
+  | store i t hi hp hc => exact Or.inr ⟨i, t, hi, hp, hc, fun x => rfl⟩
+  | acquire => exact Or.inl rfl
+  | load => exact Or.inl rfl
+  | abort => exact Or.inl rfl
+  | release => exact Or.inl rfl
+  | finish => exact Or.inl rfl
+  | spawn => exact Or.inl rfl
+
+/-- **all or none**: in every reachable state, for every table, the snapshot
+    holds exactly the writes of the transactions that have passed their commit
+    point — never a transaction's write to one table without its writes to the others -/
+theorem C02_all_or_none (s : State) (hr : Reachable s) (x : Nat) : s.root x = s.commits x :=
+  (inv_reachable s hr).serial x
+
+/-- **Abort leaves no trace** in the committed state or the ghost commit counts -/
+theorem C02_abort_no_trace (s : State) (i : Nat) (t : Txn) (hi : s.txns[i]? = some t)
+    (hp : t.phase = .loaded) (hc : t.commit = false) :
+    ∀ s', s' = { s with txns := setTxn s.txns i { t with phase := .stored } } →
+      Step s s' ∧ s'.root = s.root ∧ s'.commits = s.commits := by
+  intro s' hs'
+  subst hs'
+  exact ⟨Step.abort s i t hi hp hc, rfl, rfl⟩
+
+/-- at the table layer (Model.Table) Abort restores exactly the committed root,
+    including every index, the graveyard, revisions and initializer state -/
+theorem C02_table_abort_restores (db : Tbl.DB) : (db.abort).root = db.root ∧ (db.abort).wtxn = none := ⟨rfl, rfl⟩
+
+/-- … and before Commit nothing of the transaction is in the committed root -/
+theorem C02_table_uncommitted_invisible (db : Tbl.DB) (lockM lockA : Bool) :
+    (db.beginW lockM lockA).root = db.root := rfl
+
 end Sdb
